@@ -174,7 +174,7 @@ import models as md  # noqa: E402
 import concurrent.futures as cf  # noqa: E402
 
 
-def impl_model_stage(prefixes, expect_fail=(), orig_mutants=()):
+def impl_model_stage(prefixes, expect_fail=(), orig_mutants=(), nonotify_mutants=()):
     """Stage factory: exhaustive TLC runs of the fine-grained model MQImpl on the model scenarios whose name
     starts with one of `prefixes`, then behaviours generated from it are replayed in lockstep on the real
     crate (op kind, location and value compared at every step) and the recorded API traces validated."""
@@ -258,6 +258,18 @@ def impl_model_stage(prefixes, expect_fail=(), orig_mutants=()):
                 cov["spec_mutants_refuted"] += 1
             else:
                 log("  [model] seeded specification mutant %s (original remove_reader) NOT refuted" % name)
+        for name in nonotify_mutants:
+            mm_ = [m for m in allm if m["name"] == name]
+            if not mm_:
+                continue
+            mod, cfg = md.write_model(mm_[0], wd, False, notify_on_empty_poll=False)
+            r = vlib.tlc(mod, cfg, os.path.join(wd, "tlc_nonotify_" + name), workers=4, timeout=600, cwd=wd)
+            cov["states"] += r["distinct"]
+            cov["transitions"] += r["generated"]
+            if r["error"] and "NoLostWakeup" in r["out"]:
+                cov["spec_mutants_refuted"] += 1
+            else:
+                log("  [model] seeded specification mutant %s (no notify on an empty poll) NOT refuted" % name)
         log("  [model] MQImpl exhaustively: %d configs, %d distinct states, %d seeded spec mutants refuted" %
             (len(results), sum(r["distinct"] for _, r in results), cov["spec_mutants_refuted"]))
         # behaviours -> lockstep replay
@@ -645,7 +657,11 @@ def check_C14(tier):
                          "notification (Notify callback), so a task parked forever is a detected deadlock and is accepted "
                          "only if the model gives it nothing to do; design level: the park/notify protocol model MQFut "
                          "is checked exhaustively for NoLostWakeup, and with each repaired notification switched off TLC "
-                         "must find the lost wake-up", models=[aux_model_stage("MQFut", fut_configs())])
+                         "must find the lost wake-up; the futures calls are also part of the op-granular model MQImpl "
+                         "(WaitKind fut: start_send/send_or_park, poll/fut_wait/park, notify, notify_all, task wake-ups), "
+                         "checked for NoLostWakeup and replayed in lockstep",
+                         models=[aux_model_stage("MQFut", fut_configs()),
+                                 impl_model_stage(["fut_"], nonotify_mutants=("fut_shared_1",))])
 
 
 def check_C15(tier):
@@ -667,7 +683,8 @@ def check_C15(tier):
                          plans_for(tier), RULE_CONC +
                          "; plus sequential histories mixing start_send/poll_complete/poll with the direct methods "
                          "generated from MQAbsGen (including polls on a fresh empty queue); a poll/start_send that does "
-                         "not return is a stuck event", gens=gens)
+                         "not return is a stuck event" + RULE_IMPL, gens=gens,
+                         models=[impl_model_stage(["fut_"], nonotify_mutants=("fut_shared_1",))])
 
 
 def check_C16(tier):
